@@ -1967,7 +1967,19 @@ impl<T: PackedInt> IntVec<T> {
         let value = u64::from_le_bytes(buffer);
         
         // Use BMI2 BEXTR for optimal bit extraction when available
-        Ok(BitOps::extract_bits(value, bit_in_byte as u8, bits))
+        let mut result = BitOps::extract_bits(value, bit_in_byte as u8, bits);
+
+        // A field wider than 57 bits that starts inside a byte can reach into a ninth byte
+        // (write_bits stores it bit by bit in that case); pick up the bits beyond the window.
+        let bits_in_window = 64 - bit_in_byte;
+        if (bits as usize) > bits_in_window {
+            if let Some(&extra) = data.get(byte_offset + 8) {
+                let mask = if bits == 64 { u64::MAX } else { (1u64 << bits) - 1 };
+                result |= ((extra as u64) << bits_in_window) & mask;
+            }
+        }
+
+        Ok(result)
     }
 
     // Decompression methods
